@@ -1035,3 +1035,4 @@ Proof.
   split; [intros i Hi; do 2 (destruct i as [|i]; [cbn; lia|]); cbn in Hi; lia|].
   split; [lia|]. split; [exact ex_imesh49_slopes|]. exact interp_last_node_inexact.
 Qed.
+
